@@ -559,9 +559,28 @@ func checkLinearizable(x *Exec, r *Rig, p concParams, setup []opRec, recs [][]op
 				ops = append(ops, LinOp{Thread: ti, Call: rc.call, Ret: lc.Enter, Name: name + "/miss", Apply: func(s LinState) []LinState { return one(s, s[k] == absent) }})
 				// install point: between the loader's exit and the return the value is installed or discarded
 				ops = append(ops, LinOp{Thread: ti, Call: lc.Exit, Ret: rc.ret, Name: name + "/install", Apply: func(s LinState) []LinState {
+					// a value written by an operation that began after this loader was entered is not touched by the
+					// load's outcome (values are unique, so the current value names the operation that wrote it)
+					if cur := s[k]; cur != absent {
+						for _, rs := range recs {
+							for _, w := range rs {
+								if w.res.Int != 0 && int64(w.res.Int) == cur && w.call > lc.Enter {
+									return []LinState{s}
+								}
+							}
+						}
+					}
 					if v, ok := lc.Out[k]; ok && lc.Err == "" {
 						t := s
 						t[k] = int64(v)
+						return []LinState{t, s}
+					}
+					if lc.Err == "notfound" {
+						// a not-found outcome is applied like a value: if the flight is still the current one (a write that
+						// landed between this call's lookup and the registration of its flight does not cancel it) the key
+						// is removed. Which writes cancel a flight is C09's question (unambiguous-window rule), not this one's.
+						t := s
+						t[k] = absent
 						return []LinState{t, s}
 					}
 					return []LinState{s}
